@@ -261,8 +261,8 @@ def r_open(prog, R):
     _open_close_typestate(prog, r, g, None, False)
 
 
-def r_announce(prog, R):
-    r = R.rule("R-C10-ANNOUNCE", "sock_state_cb only from ares_conn_sock_state_cb_update, on change, flags always stored; WRITE interest requested when bytes remain", floor=5, analysis="A-WMC + A-DOM")
+def r_announce(prog, R, rid="R-C10-ANNOUNCE"):
+    r = R.rule(rid, "sock_state_cb only from ares_conn_sock_state_cb_update, on change, flags always stored; WRITE interest requested when bytes remain", floor=5, analysis="A-WMC + A-DOM")
     n = 0
     for f, b, i, c, slot in indirect_calls(prog):
         if slot == ("field", "ares_channeldata", "sock_state_cb"):
